@@ -435,6 +435,88 @@ Section Refl.
   Qed.
 End Refl.
 
+(* ------------------------------------------------------------------ spellings: the judgment does not see them *)
+Definition gpay (p : spayload) : spayload :=
+  match p with
+  | SPSeq vs elem => SPSeq (map (fun v => general v elem) vs) elem
+  | SPStatic vs elem n => SPStatic (map (fun v => general v elem) vs) elem n
+  | _ => p
+  end.
+Lemma gzip_unfold : forall vs row,
+  (fix zip (vs : list sval) (row : list ty) {struct vs} : list sval :=
+     match vs, row with
+     | v :: vr, t' :: tr => general v t' :: zip vr tr
+     | _, _ => vs
+     end) vs row = gzip general vs row.
+Proof. induction vs as [|v r IH]; intros [|t tr]; try reflexivity. cbn [gzip]. now rewrite <- IH. Qed.
+Lemma each_unfold : forall vs elem,
+  (fix each (vs : list sval) (elem : ty) {struct vs} : list sval :=
+     match vs with [] => [] | v :: r => general v elem :: each r elem end) vs elem
+  = map (fun v => general v elem) vs.
+Proof. induction vs as [|v r IH]; intros elem; [reflexivity|]. cbn [map]. now rewrite <- IH. Qed.
+Lemma general_sum tag typ vs t :
+  general (SSum tag typ vs) t =
+  SSum tag typ match sum_rows typ with
+               | Some rows => match nth_error rows tag with Some row => gzip general vs row | None => vs end
+               | None => vs
+               end.
+Proof. simpl. destruct (sum_rows typ); [|reflexivity]. destruct (nth_error l tag); [|reflexivity]. now rewrite gzip_unfold. Qed.
+Lemma general_tuple vs t :
+  general (STuple vs) t = match sum_rows t with Some [row] => SSum 0 t (gzip general vs row) | _ => STuple vs end.
+Proof. simpl. destruct (sum_rows t) as [[|row [|? ?]]|]; try reflexivity. now rewrite gzip_unfold. Qed.
+Lemma general_ext nm typ p exts t : general (SExt nm typ p exts) t = SExt nm typ (gpay p) exts.
+Proof. simpl. destruct p; try reflexivity; now rewrite each_unfold. Qed.
+
+Section Spell.
+  Variable std : stddefs.
+  Lemma gzip_has_type vs :
+    Forall (fun s => forall t, has_type_b std (general s t) t = has_type_b std s t) vs ->
+    forall row, forall2b (has_type_b std) (gzip general vs row) row = forall2b (has_type_b std) vs row.
+  Proof.
+    induction 1 as [|v r Hv _ IH]; intros [|t tr]; try reflexivity.
+    cbn [gzip forall2b]. now rewrite Hv, IH.
+  Qed.
+  Lemma each_has_type vs elem :
+    Forall (fun s => forall t, has_type_b std (general s t) t = has_type_b std s t) vs ->
+    forallb (fun v => has_type_b std v elem) (map (fun v => general v elem) vs) = forallb (fun v => has_type_b std v elem) vs.
+  Proof. induction 1 as [|v r Hv _ IH]; [reflexivity|]. cbn [map forallb]. now rewrite Hv, IH. Qed.
+
+  (* the general spelling of a value inhabits exactly the types the value as written inhabits: the Tuple shorthand
+     and the tag-0 sum value carrying the one-row sum type are one value to the judgment *)
+  Theorem general_has_type_b : forall s t, has_type_b std (general s t) t = has_type_b std s t.
+  Proof.
+    apply (sval_ind2 (fun s => forall t, has_type_b std (general s t) t = has_type_b std s t)
+                     (fun p => forall nm typ exts, payload_b std nm typ (gpay p) exts = payload_b std nm typ p exts)).
+    - intros tag typ vs IH t. rewrite general_sum, !has_type_b_sum.
+      destruct (sum_rows typ) as [rows|]; [|reflexivity]. destruct (nth_error rows tag) as [row|]; [|reflexivity].
+      now rewrite (gzip_has_type vs IH).
+    - intros vs IH t. rewrite general_tuple, has_type_b_tuple.
+      destruct (sum_rows t) as [[|row [|? ?]]|] eqn:Er; try (rewrite has_type_b_tuple, Er; reflexivity).
+      rewrite has_type_b_sum, Er. cbn [nth_error]. rewrite (gzip_has_type vs IH).
+      assert (E : same_tyb t t = true) by (apply same_tyb_spec, same_ty_refl). now rewrite E.
+    - reflexivity.
+    - intros nm typ p exts IH t. now rewrite general_ext, !has_type_b_ext, IH.
+    - reflexivity.
+    - reflexivity.
+    - reflexivity.
+    - intros vs elem IH nm typ exts. cbn [gpay]. destruct nm; cbn [payload_b]; try reflexivity;
+        now rewrite ?map_length, (each_has_type vs elem IH).
+    - intros vs elem n IH nm typ exts. cbn [gpay]. destruct nm; cbn [payload_b]; try reflexivity;
+        now rewrite (each_has_type vs elem IH).
+    - reflexivity.
+  Qed.
+  Theorem general_has_type s t : has_type std (general s t) t <-> has_type std s t.
+  Proof. rewrite <- !has_type_b_spec, general_has_type_b. reflexivity. Qed.
+
+  (* the two spellings of a tuple *)
+  Corollary tuple_spellings vs row t :
+    sum_rows t = Some [row] -> (has_type std (STuple vs) t <-> has_type std (SSum 0 t vs) t).
+  Proof.
+    intros Er. rewrite <- !has_type_b_spec, has_type_b_tuple, has_type_b_sum, Er. cbn [nth_error].
+    assert (E : same_tyb t t = true) by (apply same_tyb_spec, same_ty_refl). now rewrite E.
+  Qed.
+End Spell.
+
 (* ------------------------------------------------------------------ the constructors are well typed *)
 Section Main.
   Variable std : stddefs.
